@@ -210,6 +210,9 @@ char *h_alloc_sites_take(void) {
 /* returns 1 if this allocation must fail */
 static int alloc_tick(const char *fn, int line) {
     int fail = 0;
+    /* the harness's own helpers are not allocation sites of the program under test */
+    if (!strncmp(fn, "op_", 3) || !strncmp(fn, "hx", 2) || !strncmp(fn, "h_", 2) || !strncmp(fn, "put_", 4))
+        return 0;
     pthread_mutex_lock(&almu);
     if (alloc_fail_at >= 0 || alloc_track_sites) {
         if (alloc_count == alloc_fail_at)
@@ -222,7 +225,20 @@ static int alloc_tick(const char *fn, int line) {
         alloc_count++;
     }
     pthread_mutex_unlock(&almu);
+    if (fail) {
+        char tmp[160];
+        snprintf(tmp, sizeof(tmp), " failed:%s@%d", fn, line);
+        pthread_mutex_lock(&bufmu);
+        hb_add(&transcript, tmp, strlen(tmp));
+        pthread_mutex_unlock(&bufmu);
+    }
     return fail;
+}
+void h_exit(int status, const char *fn) {
+    /* the op in progress has written (part of) its line: finish it with the outcome and end the process */
+    fprintf(stdout, " died:%d@%s ##%s\n", status, fn, transcript.s ? transcript.s : "");
+    fflush(stdout);
+    _exit(0);
 }
 static void rq_register(void *p) {
     pthread_mutex_lock(&almu);
